@@ -214,7 +214,7 @@ def run(ctx):
 
     from .. import docgen  # noqa: F401
 
-    ctx.hyp(_strategy, check_case, max_examples=ctx.pick(2000, 60000))
+    ctx.hyp(_strategy, check_case, max_examples=ctx.pick(1500, 60000))
 
 
 def replay(case):
